@@ -1257,6 +1257,112 @@ func ruleKeyAsChannel(c *Ctx, rule string) {
 		c.check(looks, rule, "KeyAsChannel: "+cf.Name()+" resolves the registry by key at call time", w.At(mc), "reaches a lookup of "+ro.TSHByKey, "this function of the pooled channel does not look the key up in the by-key map when it is called (it is bound to one registry object): after all tunnels of the key closed and a new one opened, a long-lived handle routes to / waits on an orphaned registry")
 	})
 	c.floor(rule, n, 3, "functions of the per-key pooled channel (pick, ready, wait)")
+	// ... and the key it looks up is the one KeyAsChannel was called with
+	keyP := paramAt(fn, 1)
+	allInstrs(fn, func(in ssa.Instruction) {
+		mc, ok := in.(*ssa.MakeClosure)
+		if !ok {
+			return
+		}
+		cf, ok := mc.Fn.(*ssa.Function)
+		if !ok {
+			return
+		}
+		nLook, okKey := 0, true
+		w.instrsThroughHelpers(cf, func(x ssa.Instruction) {
+			l, isL := x.(*ssa.Lookup)
+			if !isL {
+				return
+			}
+			if fr, _, isF := loadedField(l.X); !isF || fr.Field != ro.TSHByKey {
+				return
+			}
+			nLook++
+			o := origin(l.Index)
+			if keyP != nil && o != ssa.Value(keyP) {
+				// a field of the small struct whose bound methods fill the slots (keyed{h, key}.pick): what the literal
+				// bound in KeyAsChannel holds in that field
+				if fi, recv := fieldReadOf(o); fi >= 0 && len(mc.Bindings) == 1 {
+					if fv, isFV := origin(recv).(*ssa.FreeVar); isFV && fv.Parent() == cf {
+						if v := localFieldValue(mc.Bindings[0], fi, mc); v != nil {
+							o = origin(v)
+						}
+					}
+				}
+			}
+			if keyP == nil || o != ssa.Value(keyP) {
+				okKey = false
+			}
+		})
+		c.check(nLook > 0 && okKey, rule, "KeyAsChannel: "+cf.Name()+" looks up the caller's key", w.At(mc), ro.TSHByKey+"[key]", "this function of the pooled channel looks the by-key map up with something other than the key KeyAsChannel was given: RPCs are routed to (or readiness is reported for) tunnels of another key")
+	})
+	// both pooled channels are complete: every function slot of the literal is filled, AsChannel's with methods of the
+	// handler's one global registry
+	for _, name := range []string{"(*TunnelServiceHandler).AsChannel", "(*TunnelServiceHandler).KeyAsChannel"} {
+		f := w.Func(name)
+		if f == nil {
+			c.fail(rule, name, "-", "not found")
+			continue
+		}
+		nLit := 0
+		allInstrs(f, func(in ssa.Instruction) {
+			al, ok := in.(*ssa.Alloc)
+			if !ok || al.Comment != "complit" {
+				return
+			}
+			pt, isP := al.Type().(*types.Pointer)
+			if !isP {
+				return
+			}
+			st, isS := pt.Elem().Underlying().(*types.Struct)
+			if !isS {
+				return
+			}
+			var slots []int
+			for i := 0; i < st.NumFields(); i++ {
+				if _, isSig := st.Field(i).Type().Underlying().(*types.Signature); isSig {
+					slots = append(slots, i)
+				}
+			}
+			if len(slots) < 3 {
+				return
+			}
+			nLit++
+			var recvs []string
+			for _, i := range slots {
+				v := storedFieldValue(al, i, f.Blocks[len(f.Blocks)-1].Instrs[0])
+				if v == nil {
+					// the literal is returned right away: the latest store anywhere
+					for _, r := range *al.Referrers() {
+						if fa, isFA := r.(*ssa.FieldAddr); isFA && fa.Field == i {
+							for _, r2 := range *fa.Referrers() {
+								if st2, isSt := r2.(*ssa.Store); isSt && st2.Addr == ssa.Value(fa) {
+									v = st2.Val
+								}
+							}
+						}
+					}
+				}
+				filled := v != nil && !isNilConst(v)
+				c.check(filled, rule, w.Short(f)+": slot "+st.Field(i).Name()+" of the pooled channel is filled", w.At(al), desc(v), "the pooled channel is built without its "+st.Field(i).Name()+" function: calling the corresponding method (Ready / WaitForReady / an RPC) panics with a nil function call")
+				if mc, isMC := v.(*ssa.MakeClosure); isMC && len(mc.Bindings) == 1 {
+					if fr, _, isF := loadedField(mc.Bindings[0]); isF {
+						recvs = append(recvs, fr.Field)
+					}
+				}
+			}
+			if strings.HasSuffix(name, ".AsChannel") {
+				okG := len(recvs) == len(slots)
+				for _, r := range recvs {
+					if r != ro.TSHReverse {
+						okG = false
+					}
+				}
+				c.check(okG, rule, w.Short(f)+": all slots are methods of the global registry", w.At(al), "bound to "+ro.TSHReverse, "the functions of AsChannel's pooled channel are not all methods of the handler's global registry "+ro.TSHReverse+": readiness and routing would look at different sets of tunnels")
+			}
+		})
+		c.check(nLit == 1, rule, w.Short(f)+": builds one pooled channel", posOf(w, f), "one literal", fmt.Sprintf("%d pooled-channel literals found, expected 1: unrecognised shape", nLit))
+	}
 	// registries are never removed from the by-key map while handles may exist, or lookups are per call (above)
 }
 
